@@ -94,6 +94,14 @@ func verify(t int, what string, got, want []byte) bool {
 
 func (w *cworld) run(a mempool.Allocator, t int, sc script) {
 	me := w.th[t]
+	cur := "Malloc"
+	defer func() {
+		// a panic inside the allocator: report it with the operation (a Goexit at the end of an
+		// execution is not a panic: recover returns nil)
+		if e := recover(); e != nil {
+			vsched.Fail("%s|thread %d: %s panicked: %v", sigConc(cur, "panic: "+digits.ReplaceAllString(fmt.Sprint(e), "N")), t, cur, e)
+		}
+	}()
 	ev := func(op string, moved bool, b []byte) {
 		base := unsafe.Pointer(unsafe.SliceData(b))
 		o, ok := w.owners[base]
@@ -136,6 +144,7 @@ func (w *cworld) run(a mempool.Allocator, t int, sc script) {
 	data := patBytes(t*3+1, len(ref), sc.K)
 	oldBase := unsafe.SliceData(*p)
 	me.buf = nil
+	cur = "Append"
 	var np *[]byte
 	if t == 0 {
 		np = a.Append(p, data...)
@@ -158,6 +167,7 @@ func (w *cworld) run(a mempool.Allocator, t int, sc script) {
 	p = np
 	oldBase = unsafe.SliceData(*p)
 	me.buf = nil
+	cur = "Realloc"
 	np = a.Realloc(p, sc.R)
 	touch(false)
 	if np == nil || len(*np) != sc.R {
@@ -185,6 +195,7 @@ func (w *cworld) run(a mempool.Allocator, t int, sc script) {
 		return
 	}
 	me.buf = nil
+	cur = "Free"
 	a.Free(np)
 }
 
